@@ -23,7 +23,9 @@ META = dict(
          "bytes keep moving (<= 3 / <= 4 deviations). In 6 further fine-grid "
          "configurations (HTTP/1.1 'Connection: close'; Valet fixed / stream, Porter) the clock choices are +tick (0.125 s), "
          "+T-tick and +T instead, so that bursts of activity one tick apart are followed by a silence just short of T measured "
-         "from the last byte (<= 3 / <= 4 deviations). An execution ends early once K was removed, "
+         "from the last byte (<= 3 / <= 4 deviations). In 6 further small-buffer configurations the server's receive buffer is 8 "
+         "bytes and the 'Connection: close' request arrives in pieces of 8, 16 and a further multiple of 8 bytes (control: 7, 9, "
+         "rest), so every burst fills the buffer exactly (<= 3 / <= 4 deviations). An execution ends early once K was removed, "
          "or once K is persistent and quiescent (then the clock is advanced 3T and the server serviced twice more). "
          "Observed: every closeConnection the server performs from its serviceConnects timeout sweep on a connection that was "
          "not cut off (= closed for idleness). Required: such a close happens only if no byte was sent or received on that "
@@ -109,9 +111,26 @@ def fragments(variant, kind):
     return frs, n, None
 
 
-def build(server, scheme, fn, ck):
+BS = 8          # server receive buffer size in the "bs" / "bsc" configurations
+
+
+def aligned_fragments(frs, control):
+    """Re-cut the request so that every piece is an exact multiple of the server's receive buffer size BS
+    (8, 16, rest; the request is padded with a header to a multiple of BS) - or, as a control, BS-1, BS+1, rest."""
+    data = b"".join(frs)
+    head, sep, body = data.partition(b"\r\n\r\n")
+    pad = (-(len(data) + len(b"X-Pad: \r\n"))) % BS
+    head += b"\r\nX-Pad: " + b"p" * pad
+    data = head + sep + body
+    cuts = (BS - 1, 2 * BS) if control else (BS, 3 * BS)
+    return [data[:cuts[0]], data[cuts[0]:cuts[1]], data[cuts[1]:]], len(head) + 4
+
+
+def build(server, scheme, fn, ck, mode=False):
     from ioflo.aio.http import serving
     kw = dict(context=net.FakeSslContext(fn)) if scheme == "https" else {}
+    if mode in ("bs", "bsc"):
+        kw["bufsize"] = BS
     if server == "Valet":
         srv = serving.Valet(app=app, ha=("", PORT), store=ck, timeout=T, scheme=scheme, **kw)
         ok = srv.open()
@@ -161,8 +180,10 @@ def execute(ch, server, scheme, variant, kind, slow, H, part, states):
     fn = net.FakeNet(policy=policy)
     FSM.net = fn
     ck = net.clock()
-    srv = build(server, scheme, fn, ck)
+    srv = build(server, scheme, fn, ck, slow)
     frs, headlen, endlen = fragments(variant, kind)
+    if slow in ("bs", "bsc"):
+        frs, headlen = aligned_fragments(frs, slow == "bsc")
     conns = []
     for name in ("N", "K", "M"):       # accept order: an idle connection before and one after the active one
         s = fn.socket(name=name)
@@ -294,14 +315,19 @@ def work(cfg):
             if group not in best or rank < best[group][0]:
                 best[group] = (rank, (
                     group,
-                    "%s /%s%s schedule=%s" % (variant, kind, " fine-ticks" if slow == "fine" else " slow-reader" if slow else "", ",".join(sched)),
+                    "%s /%s%s schedule=%s" % (variant, kind, " fine-ticks" if slow == "fine" else " bufsize-aligned" if slow == "bs" else " bufsize-unaligned" if slow == "bsc"
+                                              else " slow-reader" if slow else "", ",".join(sched)),
                     "%s over %s, timeout %g s, request %s /%s in fragments%s, schedule [%s]: %s"
                     % (server, "TLS" if scheme == "https" else "plain TCP", T, variant, kind,
                        "" if slow == "fine" else
+                       ", server bufsize %d and request pieces of %s bytes" % (BS, "8, 16 and a multiple of 8" if slow == "bs" else "7, 9 and the rest")
+                       if slow in ("bs", "bsc") else
                        ", client reads slowly (every server send is accepted in part: half of the bytes offered)" if slow else "",
                        ", ".join(sched), what),
                     dict(server=server, scheme=scheme, timeout=T, variant=variant, app=kind, slow_reader=slow,
-                         fragments=fragments(variant, kind)[0], schedule=sched, choices=ch.choices, what=what,
+                         fragments=(aligned_fragments(fragments(variant, kind)[0], slow == "bsc")[0] if slow in ("bs", "bsc")
+                                    else fragments(variant, kind)[0]),
+                         server_bufsize=BS if slow in ("bs", "bsc") else 8096, schedule=sched, choices=ch.choices, what=what,
                          how="%s(ha=('',8080), timeout=10.0, store=clock[, scheme='https', context=...]) over mc.net doubles; "
                              "connect three raw client sockets N, K, M (in that order); per schedule item: 'send' = K sends its next fragment, "
                              "'+xT' = clock.advance(x*10), '+tick' = clock.advance(0.125), '+T-tick' = clock.advance(9.875), then "
@@ -337,6 +363,12 @@ def configs():
         for scheme in ("http", "https"):
             for kind in (("fixed", "stream") if server == "Valet" else ("echo",)):
                 cfgs.append((len(cfgs), server, scheme, "close11", kind, "fine"))
+    # small receive buffer: request pieces that are exact multiples of the buffer size (and a control that are not)
+    for server in ("Valet", "Porter"):
+        for scheme in ("http", "https"):
+            cfgs.append((len(cfgs), server, scheme, "close11", "fixed" if server == "Valet" else "echo", "bs"))
+            if server == "Valet":
+                cfgs.append((len(cfgs), server, scheme, "close11", "fixed", "bsc"))
     # slow reader: non-persistent exchanges whose response needs many partial sends
     # (Valet only: Porter removes a non-persistent connection in the pass that queued the response)
     for scheme in ("http", "https"):
